@@ -529,7 +529,7 @@ class Convolver:
             for image_1d_index in range(mapping_matrix.shape[0]):
                 value = mapping_matrix[image_1d_index, pixel_1d_index]
 
-                if value > 0:
+                if value != 0:
                     frame_1d_indexes = image_frame_1d_indexes[image_1d_index]
                     frame_1d_kernel = image_frame_1d_kernels[image_1d_index]
                     frame_1d_length = image_frame_1d_lengths[image_1d_index]
